@@ -1,2 +1,162 @@
-(* C05 -- theorems are being added *)
-From ZK Require Import Laws.
+(* C05 -- Blind BBS issuance and presentation completeness, for every environment with Laws, every number of committed
+   messages M >= 0 and signer messages L >= 0, every header / presentation header, all draws (outside r1 = 0, r2 = 0 for
+   proofs).  bgens n = create_generators n ("BLIND_" ++ api_id_blind); hmb = message-to-scalar under the blind api_id. *)
+From ZK Require Import Laws BaseLemmas ModelLemmas SignProofs Codec ProofComplete BlindComplete.
+
+(* commit: the Schnorr proof of the commitment verifies; the serialized commitment has 112 + 32 M octets, decodes, and is
+   accepted by the signer-side validation over any blind-generator set that extends the prover's (prefix independence) *)
+Theorem C05_commit_valid :
+  forall (E : env) (LW : Laws E) cmsgs rho p1 extra,
+  suite_ok E -> g1_dec (PR E) (c_p1 (cs E)) = Some p1 ->
+  let cm := option_default [] cmsgs in
+  length rho = (length cm + 2)%nat ->
+  exists x,
+    commit E cmsgs rho = Ok (x, nth 0 rho (f0 (SO E))) /\
+    length (commitment_to_bytes E x) = (112 + 32 * length cm)%nat /\
+    dl1 E LW (cm_C E x) =
+      fadd (SO E) (fmul (SO E) (nth 0 rho (f0 (SO E))) (dl1 E LW (nth 0 (bgens E (length cm + 1)) (g1_zero (PR E)))))
+                  (dot E LW (skipn 1 (bgens E (length cm + 1))) (map (hmb E) cm)) /\
+    deserialize_and_validate_commit E (Some (commitment_to_bytes E x))
+      {| g_p1 := p1; g_values := bgens E (length cm + 1 + extra) |} (Some (c_api_id_blind (cs E))) = Ok (cm_C E x).
+Proof. exact commit_valid. Qed.
+Check (C05_commit_valid :
+  forall (E : env) (LW : Laws E) cmsgs rho p1 extra,
+  suite_ok E -> g1_dec (PR E) (c_p1 (cs E)) = Some p1 ->
+  let cm := option_default [] cmsgs in
+  length rho = (length cm + 2)%nat ->
+  exists x,
+    commit E cmsgs rho = Ok (x, nth 0 rho (f0 (SO E))) /\
+    length (commitment_to_bytes E x) = (112 + 32 * length cm)%nat /\
+    dl1 E LW (cm_C E x) =
+      fadd (SO E) (fmul (SO E) (nth 0 rho (f0 (SO E))) (dl1 E LW (nth 0 (bgens E (length cm + 1)) (g1_zero (PR E)))))
+                  (dot E LW (skipn 1 (bgens E (length cm + 1))) (map (hmb E) cm)) /\
+    deserialize_and_validate_commit E (Some (commitment_to_bytes E x))
+      {| g_p1 := p1; g_values := bgens E (length cm + 1 + extra) |} (Some (c_api_id_blind (cs E))) = Ok (cm_C E x)).
+Print Assumptions C05_commit_valid.
+
+Theorem C05_core_commit_complete :
+  forall (E : env) (LW : Laws E) bg cms api rho,
+  length bg = (length cms + 1)%nat -> length rho = (length cms + 2)%nat ->
+  (length (api ++ c_h2s (cs E)) <= 255)%nat ->
+  exists x,
+    core_commit E bg cms api rho = Ok (x, nth 0 rho (f0 (SO E))) /\
+    length (z_m_cap E (cm_proof E x)) = length cms /\
+    dl1 E LW (cm_C E x) = fadd (SO E) (fmul (SO E) (nth 0 rho (f0 (SO E))) (dl1 E LW (nth 0 bg (g1_zero (PR E)))))
+                                      (dot E LW (skipn 1 bg) cms) /\
+    core_commit_verify E (cm_C E x) (cm_proof E x) bg api = Ok tt.
+Proof. exact core_commit_complete. Qed.
+Check (C05_core_commit_complete :
+  forall (E : env) (LW : Laws E) bg cms api rho,
+  length bg = (length cms + 1)%nat -> length rho = (length cms + 2)%nat ->
+  (length (api ++ c_h2s (cs E)) <= 255)%nat ->
+  exists x,
+    core_commit E bg cms api rho = Ok (x, nth 0 rho (f0 (SO E))) /\
+    length (z_m_cap E (cm_proof E x)) = length cms /\
+    dl1 E LW (cm_C E x) = fadd (SO E) (fmul (SO E) (nth 0 rho (f0 (SO E))) (dl1 E LW (nth 0 bg (g1_zero (PR E)))))
+                                      (dot E LW (skipn 1 bg) cms) /\
+    core_commit_verify E (cm_C E x) (cm_proof E x) bg api = Ok tt).
+Print Assumptions C05_core_commit_complete.
+
+(* a blind signature over the serialized commitment verifies with the committed messages and the returned blinding factor
+   (whenever blind_sign returns: it is Err only on the negligible set B = O / sk + e = 0, never a panic: C08) *)
+Theorem C05_blind_sign_verify_complete :
+  forall (E : env) (LW : Laws E) sk cmsgs rho header msgs p1 x s,
+  suite_ok E -> g1_dec (PR E) (c_p1 (cs E)) = Some p1 ->
+  let cm := option_default [] cmsgs in
+  length rho = (length cm + 2)%nat ->
+  commit E cmsgs rho = Ok (x, nth 0 rho (f0 (SO E))) ->
+  blind_sign E sk (sk_to_pk E sk) (Some (commitment_to_bytes E x)) header msgs = Ok s ->
+  verify_blind_sign E s (sk_to_pk E sk) header msgs cmsgs (Some (nth 0 rho (f0 (SO E)))) = Ok tt.
+Proof. exact blind_sign_verify_complete. Qed.
+Check (C05_blind_sign_verify_complete :
+  forall (E : env) (LW : Laws E) sk cmsgs rho header msgs p1 x s,
+  suite_ok E -> g1_dec (PR E) (c_p1 (cs E)) = Some p1 ->
+  let cm := option_default [] cmsgs in
+  length rho = (length cm + 2)%nat ->
+  commit E cmsgs rho = Ok (x, nth 0 rho (f0 (SO E))) ->
+  blind_sign E sk (sk_to_pk E sk) (Some (commitment_to_bytes E x)) header msgs = Ok s ->
+  verify_blind_sign E s (sk_to_pk E sk) header msgs cmsgs (Some (nth 0 rho (f0 (SO E)))) = Ok tt).
+Print Assumptions C05_blind_sign_verify_complete.
+
+Theorem C05_blind_sign_no_commit_complete :
+  forall (E : env) (LW : Laws E) sk header msgs p1 s cwp,
+  suite_ok E -> g1_dec (PR E) (c_p1 (cs E)) = Some p1 ->
+  option_default [] cwp = [] ->
+  blind_sign E sk (sk_to_pk E sk) cwp header msgs = Ok s ->
+  verify_blind_sign E s (sk_to_pk E sk) header msgs None None = Ok tt.
+Proof. exact blind_sign_no_commit_complete. Qed.
+Check (C05_blind_sign_no_commit_complete :
+  forall (E : env) (LW : Laws E) sk header msgs p1 s cwp,
+  suite_ok E -> g1_dec (PR E) (c_p1 (cs E)) = Some p1 ->
+  option_default [] cwp = [] ->
+  blind_sign E sk (sk_to_pk E sk) cwp header msgs = Ok s ->
+  verify_blind_sign E s (sk_to_pk E sk) header msgs None None = Ok tt).
+Print Assumptions C05_blind_sign_no_commit_complete.
+
+(* the signer's `get(1..len-1)` of M+2 blind generators is the verifier's J_1..J_M *)
+Theorem C05_signer_Js :
+  forall (E : env) M, sub (bgens E (M + 2)) 1 (M + 1) = skipn 1 (bgens E (M + 1)).
+Proof. exact signer_Js. Qed.
+Check (C05_signer_Js :
+  forall (E : env) M, sub (bgens E (M + 2)) 1 (M + 1) = skipn 1 (bgens E (M + 1))).
+Print Assumptions C05_signer_Js.
+
+(* the index translation: sort/dedup of (signer indexes ++ committed indexes shifted by L+1) is the concatenation of the
+   two sorted lists -- position L (the blinding factor) is never disclosed *)
+Theorem C05_sort_dedup_blind_indexes :
+  forall L a b, (forall x, In x a -> (x < N.of_nat L)%N) ->
+  sort_dedup (a ++ map (shiftN L) b) = sort_dedup a ++ map (shiftN L) (sort_dedup b).
+Proof. exact sort_dedup_blind_indexes. Qed.
+Check (C05_sort_dedup_blind_indexes :
+  forall L a b, (forall x, In x a -> (x < N.of_nat L)%N) ->
+  sort_dedup (a ++ map (shiftN L) b) = sort_dedup a ++ map (shiftN L) (sort_dedup b)).
+Print Assumptions C05_sort_dedup_blind_indexes.
+
+(* every pair of disclosure choices: blind_proof_gen succeeds and blind_proof_verify accepts with the disclosed
+   messages, their positions and the signer-message count L *)
+Theorem C05_blind_proof_complete :
+  forall (E : env) (LW : Laws E) pk sigb s header ph msgs cmsgs idx cidx spb rho p1,
+  suite_ok E -> g1_dec (PR E) (c_p1 (cs E)) = Some p1 ->
+  sig_from_bytes E sigb = Ok s ->
+  verify_blind_sign E s pk header msgs cmsgs spb = Ok tt ->
+  let ml := option_default [] msgs in
+  let cm := option_default [] cmsgs in
+  let ix := option_default [] idx in
+  let cx := option_default [] cidx in
+  let D := sort_dedup ix in
+  let Dc := sort_dedup cx in
+  (forall i, In i ix -> N.lt i (N.of_nat (length ml))) -> (length ix <= length ml)%nat ->
+  (forall j, In j cx -> N.lt j (N.of_nat (length cm))) -> (length cx <= length cm)%nat ->
+  N.le (N.of_nat (length ml + length cm + 2)) usize_max ->
+  length rho = (5 + (length ml + 1 + length cm - (length D + length Dc)))%nat ->
+  nth 0 rho (f0 (SO E)) <> f0 (SO E) -> nth 1 rho (f0 (SO E)) <> f0 (SO E) ->
+  dl2 E LW pk <> f0 (SO E) -> fadd (SO E) (dl2 E LW pk) (sig_e E s) <> f0 (SO E) ->
+  exists p,
+    blind_proof_gen E pk sigb header ph msgs cmsgs idx cidx spb rho = Ok p /\
+    blind_proof_verify E p pk header ph (Some (N.of_nat (length ml))) (Some (pick ml D)) (Some (pick cm Dc))
+                       (Some D) (Some Dc) = Ok tt /\
+    length (pok_to_bytes E p) = (272 + 32 * (length ml + 1 + length cm - (length D + length Dc)))%nat.
+Proof. exact blind_proof_complete. Qed.
+Check (C05_blind_proof_complete :
+  forall (E : env) (LW : Laws E) pk sigb s header ph msgs cmsgs idx cidx spb rho p1,
+  suite_ok E -> g1_dec (PR E) (c_p1 (cs E)) = Some p1 ->
+  sig_from_bytes E sigb = Ok s ->
+  verify_blind_sign E s pk header msgs cmsgs spb = Ok tt ->
+  let ml := option_default [] msgs in
+  let cm := option_default [] cmsgs in
+  let ix := option_default [] idx in
+  let cx := option_default [] cidx in
+  let D := sort_dedup ix in
+  let Dc := sort_dedup cx in
+  (forall i, In i ix -> N.lt i (N.of_nat (length ml))) -> (length ix <= length ml)%nat ->
+  (forall j, In j cx -> N.lt j (N.of_nat (length cm))) -> (length cx <= length cm)%nat ->
+  N.le (N.of_nat (length ml + length cm + 2)) usize_max ->
+  length rho = (5 + (length ml + 1 + length cm - (length D + length Dc)))%nat ->
+  nth 0 rho (f0 (SO E)) <> f0 (SO E) -> nth 1 rho (f0 (SO E)) <> f0 (SO E) ->
+  dl2 E LW pk <> f0 (SO E) -> fadd (SO E) (dl2 E LW pk) (sig_e E s) <> f0 (SO E) ->
+  exists p,
+    blind_proof_gen E pk sigb header ph msgs cmsgs idx cidx spb rho = Ok p /\
+    blind_proof_verify E p pk header ph (Some (N.of_nat (length ml))) (Some (pick ml D)) (Some (pick cm Dc))
+                       (Some D) (Some Dc) = Ok tt /\
+    length (pok_to_bytes E p) = (272 + 32 * (length ml + 1 + length cm - (length D + length Dc)))%nat).
+Print Assumptions C05_blind_proof_complete.
